@@ -182,8 +182,14 @@ func CheckC06(r *core.Run) {
 	cfgs := pqCfgs(r, "c06", n, func(i int, c *QCfg) {
 		c.Steps = r.Pick(60, 120)
 		c.ReopenPct = 8
-		c.LagMax = 12
 		c.BigPct = 25
+		if c.FillUp {
+			// the file really fills up: flushes fail and are retried after ACKs, then reopen / crash
+			c.Steps = r.Pick(160, 300)
+			c.BigPct = 55
+		} else {
+			c.LagMax = 12
+		}
 		if i%2 == 1 {
 			c.FaultPct = 30
 		}
